@@ -1,10 +1,107 @@
 /-
-  Drive/Schema.lean — driver suite `schema` (stub; to be implemented).
+  Drive/Schema.lean — driver suite `schema` (C08): the model of `structure_to_schema`, the Lean
+  draft-4 validator / well-formedness predicate evaluated on both the model's and the real code's
+  schemas, the fragment predicates, and mapper-free serialization / deserialization of the
+  generated instances and boundary documents.
 -/
 import TypedpyModel.Drive.Wire
+import TypedpyModel.Spec.SchemaFrag
 namespace Typedpy.Drive.Schema
 open Lean (Json)
+open Typedpy Typedpy.Wire Typedpy.Sch
 
-def run (_j : Json) : Except String Json := .error "suite schema not implemented"
+def tableOfJson (j : Json) (key : String) : Except String (String → String → Bool) := do
+  let table : List (String × String × Bool) ← match optField j key with
+    | none => pure []
+    | some x => (← x.getArr?).toList.mapM fun t => do
+      let a ← t.getArr?
+      pure ((← a[0]!.getStr?), (← a[1]!.getStr?), (← a[2]!.getBool?))
+  pure fun p s => match table.find? (fun t => t.1 == p && t.2.1 == s) with
+                  | some t => t.2.2 | none => false
+
+def defsOfVal (v : PyVal) : Defs :=
+  match v with
+  | .dict kvs => kvs.filterMap fun kv => match kv.1 with | .str n => some (n, kv.2) | _ => none
+  | _ => []
+
+def defsToVal (D : Defs) : PyVal := .dict (D.map fun e => (.str e.1, e.2))
+
+/-- fuel for real-code schemas: more than any acyclic definitions table can need -/
+def fuelFor (D : Defs) : Nat := D.length + 2
+
+def judgeDoc (S : String → String → Bool) (schema : PyVal) (defs : Defs) (d : PyVal) : Bool :=
+  jsValidFuel (fuelFor defs) (ptrDefs (fixDefs defs)) S (dialectFix schema) d
+
+def run (j : Json) : Except String Json := do
+  let O ← oraclesOfJson j
+  let S ← tableOfJson j "search"
+  let cls ← declOfJson (← j.getObjVal? "cls")
+  let (c, fields, _defaults) ← match cls with
+    | .struct c fields defaults => pure (c, fields, defaults)
+    | _ => throw "schema: cls is not a class"
+  let collapsed := collapses c (fields.map (·.1))
+  let (mSchema, mDefs) := toSchema cls
+  let mRaises := raisesP fields
+  let D := fixedPtrDefs cls
+  let mut out : List (String × Json) := [
+    ("raises", Json.bool mRaises),
+    ("collapsed", Json.bool collapsed),
+    ("inFrag", Json.bool (inSchemaFragment cls)),
+    ("inWfFrag", Json.bool (inWfFragment cls)),
+    ("inExact", Json.bool (inExactFragment cls)),
+    ("refsFaithful", Json.bool (classRefsFaithfulB D cls)),
+    ("refDepth", Json.num (Lean.JsonNumber.fromNat (refDepth cls)))]
+  if !mRaises then
+    out := out ++ [("schema", valToJson mSchema), ("defs", valToJson (defsToVal mDefs)),
+                   ("wfModel", Json.bool (wfDocument (dialectFix mSchema) (fixDefs mDefs))),
+                   ("fixAgrees", Json.bool (structEq (dialectFix mSchema) (classSchema true cls)))]
+  -- the real code's schema, judged by the Lean predicates
+  let impl : Option (PyVal × Defs) ← match optField j "implSchema" with
+    | none => pure none
+    | some sj => do
+      let s ← valOfJson sj
+      let d ← match optField j "implDefs" with | none => pure [] | some dj => do pure (defsOfVal (← valOfJson dj))
+      pure (some (s, d))
+  if let some (s, d) := impl then
+    out := out ++ [("wfImpl", Json.bool (wfDocument (dialectFix s) (fixDefs d)))]
+  -- instances
+  let insts ← match optField j "insts" with | none => pure #[] | some x => x.getArr?
+  let mut res : Array Json := #[]
+  for ij in insts do
+    let x ← valOfJson (← ij.getObjVal? "x")
+    let ser : R PyVal := if collapsed then
+        (match x, fields with
+         | .inst _ attrs, (n, f) :: _ => (match lookup n attrs with
+            | some v => Typedpy.ser O f v
+            | none => .error (.other "AttributeError"))
+         | _, _ => .error (.other "not-an-instance"))
+      else serialize O cls x
+    let mut r : List (String × Json) := [
+      ("ser", resToJson ser),
+      ("wellFormed", Json.bool (wellFormed O cls x)),
+      ("inRegion", Json.bool (inAdmitRegion O cls x))]
+    if !mRaises then
+      match ser with
+      | .ok d => r := r ++ [("validModel", Json.bool (jsValidFuel (refDepth cls) D S (dialectFix mSchema) d))]
+      | .error _ => pure ()
+    if let some (s, dfs) := impl then
+      if let some dj := optField ij "doc" then
+        let d ← valOfJson dj
+        r := r ++ [("validImpl", Json.bool (judgeDoc S s dfs d))]
+    res := res.push (Json.mkObj r)
+  out := out ++ [("insts", Json.arr res)]
+  -- boundary documents
+  let bdocs ← match optField j "bdocs" with | none => pure #[] | some x => x.getArr?
+  let mut bres : Array Json := #[]
+  for dj in bdocs do
+    let d ← valOfJson dj
+    let mut r : List (String × Json) := [("deser", resToJson (deserialize O {} cls d))]
+    if !mRaises then
+      r := r ++ [("validModel", Json.bool (jsValidFuel (refDepth cls) D S (dialectFix mSchema) d))]
+    if let some (s, dfs) := impl then
+      r := r ++ [("validImpl", Json.bool (judgeDoc S s dfs d))]
+    bres := bres.push (Json.mkObj r)
+  out := out ++ [("bdocs", Json.arr bres)]
+  pure (Json.mkObj out)
 
 end Typedpy.Drive.Schema
